@@ -48,6 +48,29 @@ def _copy(a: bytes) -> bytes:
     return a[:1] + a[1:]
 
 
+_FIELD_SIZE = 2**256 - 2**32 - 977
+_ORDER = 0xFFFFFFFFFFFFFFFFFFFFFFFFFFFFFFFEBAAEDCE6AF48A03BBFD25E8CD0364141
+
+
+def _check_pubkey(pub: bytes):
+    """Rejects 64-byte structures that are not a curve point.
+    libsecp256k1 trusts them: it aborts the process on an all-zero structure
+    and computes garbage from off-curve coordinates."""
+    x = int.from_bytes(pub[:32], "little")
+    y = int.from_bytes(pub[32:64], "little")
+    if x >= _FIELD_SIZE or y >= _FIELD_SIZE or (y * y - x * x * x - 7) % _FIELD_SIZE:
+        raise ValueError("Invalid public key")
+
+
+def _check_sig(sig: bytes):
+    """Rejects 64-byte signature structures with r or s outside the group order"""
+    if (
+        int.from_bytes(sig[:32], "little") >= _ORDER
+        or int.from_bytes(sig[32:64], "little") >= _ORDER
+    ):
+        raise ValueError("Invalid signature")
+
+
 def _find_library():
     library_path = None
     extension = ""
@@ -523,6 +546,7 @@ def ec_pubkey_serialize(pubkey, flag=EC_COMPRESSED, context=_secp.ctx):
         raise ValueError("Pubkey should be 64 bytes long")
     if flag not in [EC_COMPRESSED, EC_UNCOMPRESSED]:
         raise ValueError("Invalid flag")
+    _check_pubkey(pubkey)
     sec = bytes(33) if (flag == EC_COMPRESSED) else bytes(65)
     sz = c_size_t(len(sec))
     r = _secp.secp256k1_ec_pubkey_serialize(context, sec, byref(sz), pubkey, flag)
@@ -578,6 +602,7 @@ def ecdsa_signature_serialize_compact(sig, context=_secp.ctx):
 def ecdsa_signature_normalize(sig, context=_secp.ctx):
     if len(sig) != 64:
         raise ValueError("Signature should be 64 bytes long")
+    _check_sig(sig)
     sig2 = bytes(64)
     r = _secp.secp256k1_ecdsa_signature_normalize(context, sig2, sig)
     return sig2
@@ -591,6 +616,7 @@ def ecdsa_verify(sig, msg, pub, context=_secp.ctx):
         raise ValueError("Message should be 32 bytes long")
     if len(pub) != 64:
         raise ValueError("Public key should be 64 bytes long")
+    _check_pubkey(pub)
     r = _secp.secp256k1_ecdsa_verify(context, sig, msg, pub)
     return bool(r)
 
@@ -633,6 +659,7 @@ def ec_privkey_negate(secret, context=_secp.ctx):
 def ec_pubkey_negate(pubkey, context=_secp.ctx):
     if len(pubkey) != 64:
         raise ValueError("Pubkey should be a 64-byte structure")
+    _check_pubkey(pubkey)
     pub = _copy(pubkey)
     r = _secp.secp256k1_ec_pubkey_negate(context, pub)
     if r == 0:
@@ -656,6 +683,7 @@ def ec_pubkey_tweak_add(pub, tweak, context=_secp.ctx):
         raise ValueError("Public key should be 64 bytes long")
     if len(tweak) != 32:
         raise ValueError("Tweak should be 32 bytes long")
+    _check_pubkey(pub)
     t = _copy(tweak)
     if _secp.secp256k1_ec_pubkey_tweak_add(context, pub, tweak) == 0:
         raise ValueError("Failed to tweak the public key")
@@ -680,6 +708,7 @@ def ec_pubkey_add(pub, tweak, context=_secp.ctx):
         raise ValueError("Public key should be 64 bytes long")
     if len(tweak) != 32:
         raise ValueError("Tweak should be 32 bytes long")
+    _check_pubkey(pub)
     p = _copy(pub)
     if _secp.secp256k1_ec_pubkey_tweak_add(context, p, tweak) == 0:
         raise ValueError("Failed to tweak the public key")
@@ -700,6 +729,7 @@ def ec_pubkey_tweak_mul(pub, tweak, context=_secp.ctx):
         raise ValueError("Public key should be 64 bytes long")
     if len(tweak) != 32:
         raise ValueError("Tweak should be 32 bytes long")
+    _check_pubkey(pub)
     if _secp.secp256k1_ec_pubkey_tweak_mul(context, pub, tweak) == 0:
         raise ValueError("Failed to tweak the public key")
 
@@ -721,6 +751,7 @@ def ecdh(pubkey, scalar, hashfn=None, data=None, context=_secp.ctx):
         raise ValueError("Pubkey should be 64 bytes long")
     if not len(scalar) == 32:
         raise ValueError("Scalar should be 32 bytes long")
+    _check_pubkey(pubkey)
     secret = bytes(32)
     if hashfn is None:
         res = _secp.secp256k1_ecdh(context, secret, pubkey, scalar, None, None)
@@ -751,6 +782,7 @@ def ecdh(pubkey, scalar, hashfn=None, data=None, context=_secp.ctx):
 def xonly_pubkey_from_pubkey(pubkey, context=_secp.ctx):
     if len(pubkey) != 64:
         raise ValueError("Pubkey should be 64 bytes long")
+    _check_pubkey(pubkey)
     pointer = POINTER(c_int)
     parity = pointer(c_int(0))
     xonly_pub = bytes(64)
@@ -765,6 +797,7 @@ def schnorrsig_verify(sig, msg, pubkey, context=_secp.ctx):
     assert len(sig) == 64
     assert len(msg) == 32
     assert len(pubkey) == 64
+    _check_pubkey(pubkey)
     res = _secp.secp256k1_schnorrsig_verify(context, sig, msg, pubkey)
     return bool(res)
 
@@ -862,6 +895,7 @@ def ecdsa_recover(sig, msghash, context=_secp.ctx):
         raise ValueError("Message should be 32 bytes long")
     if sig[64] > 3:
         raise ValueError("Failed to recover public key")
+    _check_sig(sig)
     pub = bytes(64)
     r = _secp.secp256k1_ecdsa_recover(context, pub, sig, msghash)
     if r == 0:
